@@ -15,7 +15,11 @@ TEXT = {
          "Lean theorem (block Gibbs on the model) + exact-kernel correspondence; known finding F7"),
  "C05": ("Theorems: genotype list = PyClone major-copy-number prior; expected VAF in (0,1); binomial and beta-binomial (Pochhammer form, Chu-Vandermonde) pmfs sum to one; the genotype mixture sums to one over all alternate counts and is positive; grid entry = mixture at CCF k/(G-1); cluster grid = product of members; outlier terms = per-mutation terms to the power of the cluster size. Correspondence: load_data on generated input files vs the model and vs a Fraction oracle.",
          "Lean theorem + differential check against load_data"),
- "C06": None, "C07": None, "C15": None,
+ "C06": ("Theorems on the executable store model (one Lean definition per method of phyclone.tree.Tree / TreeNode): the cache invariant (p = prior x product of the clone's data, r = p (.) S(children's cached r), root vector when a clone exists) holds for the empty tree and is preserved by every edit operation and hence along every history of any length over several live handles (cacheOK_step, cacheOK_reachable, cacheOK_reachable_legal); under it every cached vector equals the from-scratch recursion and both cache-read joint densities equal the densities of the abstract tree (rebuild_eq). Correspondence: model vs real Tree after every op of generated edit histories (exact rationals vs floats); oracle: exact recomputation of every cached vector and densities of a rebuilt tree.",
+         "Lean theorem (invariant by induction over edit histories) + differential check on edit histories"),
+ "C07": ("Theorems on the executable store model: well-formedness (names/indices unique, name<->index maps exactly the payload pairs, _data keyed by clone names or the outlier key and equal to the payload sets, every data point in exactly one place) holds for the empty tree and is preserved by every edit operation under the side conditions of the sampler grammar, hence along every legal history (wf_step, wf_reachable); per-operation data accounting (data_conserved), subtree extraction = clade, subtree and data-point moves conserve the data multiset, labels partition the data. Graph shape (single parent, reachability) is structural in the model and is decided on the real rustworkx graph by the oracle. Correspondence: model vs real Tree after every op of generated histories; oracle: full well-formedness clause list on every live handle, and every sampler invocation (burn-in SMC, PG, subtree PG, data-point, prune-regraft, run-loop iteration; three proposals; outliers on/off) returns a well-formed tree on exactly the input data; retained path reproduces the input tree.",
+         "Lean theorem (invariant by induction over edit histories) + differential check on edit histories and sampler invocations"),
+ "C15": None,
  "C08": ("Theorems for all three proposals, every parent state and data point: reported probabilities sum to one, every placement is in the support with positive probability, the sampler draws each tree with exactly the reported probability, weights and proposal probabilities telescope to pOne*pdf along every path, parents are unique. Correspondence: log_p of every placement, exact distribution of sample() and particle weights vs the model; oracles: normalisation, sampled = reported, complete support, telescoping on random paths.",
          "Lean theorem + exact-distribution differential check"),
  "C09": ("Theorems for every tree with distinct data: the enumerated orders are exactly the compatible ones (sound, complete, no duplicates), the code's count equals their number, the sampler is uniform on them, the density is 1/count. Correspondence: exact distribution of the real sampler and log_pdf vs the model; brute force over all permutations as oracle.",
